@@ -40,7 +40,7 @@ def make_obs(ctx):
             obs.append(Ob('milfup:%s:%d-%d' % (rp, lo, hi), H, 'h_milfup', dict(d, REP=REPS[rp]), units=UNITS,
                           unwind=12, group='milfup:' + rp, remove_bodies=P([rp]),
                           bounds={'days': 'every day of %d..%d' % (lo, hi)}))
-    for km in ((2, 40) if ctx.tier == 'quick' else (2, 40, 400, 24000)):
+    for km in ((2, 40, 911280) if ctx.tier == 'quick' else (2, 40, 400, 24000, 911280)):
         obs.append(Ob('dtdiff:k%d' % km, H, 'h_dtdiff', dict(KMAX=km), units=UNITS, group='dtdiff', timeout=600,
                       remove_bodies=P(['daisy']),
                       bounds={'first': 'every second of every day 1601..4095 (day-number held)',
